@@ -31,6 +31,14 @@ func replay(prop string, r *sym.CaseResult, v *sym.ViolationInfo, path string) s
 		// the harness declared that this case has no native counterpart (e.g. two parties that stand
 		// for two operating-system processes with separate package-level state): the replay file holds
 		// the case (shape, inputs, violated obligation); the violation is reported at model level
+		if strings.HasPrefix(n, "replay:model-only-id:") {
+			// an obligation that only exists in the model (conflicting-access check): the native
+			// build has no counterpart to fail
+			if strings.HasPrefix(v.ID, strings.TrimPrefix(n, "replay:model-only-id:")) {
+				return "model-only"
+			}
+			continue
+		}
 		if strings.HasPrefix(n, "replay:model-only") {
 			return "model-only"
 		}
